@@ -138,12 +138,6 @@ End Codec.
 Arguments file_vd {V}.
 
 (* ---- labels ---- *)
-Fixpoint has_sp (s : string) : bool :=
-  match s with EmptyString => false | String c t => Ascii.eqb c sp || has_sp t end.
-Fixpoint has_brace (s : string) : bool :=
-  match s with EmptyString => false
-  | String c t => Ascii.eqb c lbrace || Ascii.eqb c rbrace || has_brace t end.
-
 Lemma sp_to_us_id s : has_sp s = false -> sp_to_us s = s.
 Proof.
   induction s; simpl; [reflexivity|]. intros H. apply Bool.orb_false_iff in H. destruct H as [H1 H2].
@@ -165,7 +159,7 @@ Proof.
 Qed.
 
 Lemma labels_roundtrip l :
-  Forall (fun c => has_sp c = false /\ has_brace c = false) l -> map convert_label (map field_label l) = l.
+  Forall label_ok l -> map convert_label (map field_label l) = l.
 Proof.
   induction 1 as [|c l [H1 H2] _ IH]; simpl; [reflexivity|].
   rewrite IH. f_equal. apply label_roundtrip; assumption.
